@@ -12,13 +12,15 @@ import (
 
 	"github.com/shutter-network/shutter/shlib/puredkg"
 	"github.com/shutter-network/shutter/shlib/shcrypto"
+
+	corekeyper "github.com/shutter-network/rolling-shutter/rolling-shutter/keyper/database"
 	blst "github.com/supranational/blst/bindings/go"
 
 	"github.com/shutter-network/rolling-shutter/rolling-shutter/keyper/epochkg"
 	"github.com/shutter-network/rolling-shutter/rolling-shutter/keyper/kprtopics"
-	"github.com/shutter-network/rolling-shutter/rolling-shutter/p2pmsg"
 	"github.com/shutter-network/rolling-shutter/rolling-shutter/medley/identitypreimage"
 	"github.com/shutter-network/rolling-shutter/rolling-shutter/medley/testkeygen"
+	"github.com/shutter-network/rolling-shutter/rolling-shutter/p2pmsg"
 )
 
 // C01 — a derived decryption key is the unique correct key, from any t valid shares.
@@ -407,8 +409,23 @@ func TestC01_HandlerPipeline(t *testing.T) {
 		if err := writeBatchConfigAndEon(ctx, node.DB, es, false); err != nil {
 			rt.Fatalf("setup: %v", err)
 		}
-		if err := writeDKGResult(ctx, node.DB, es, 0, true); err != nil {
-			rt.Fatalf("setup: %v", err)
+		// the eon of the keyper set may be a restarted one: an older eon of the same set exists whose key
+		// generation this keyper recorded as successful with OTHER keys (the "foreign" set); the keys of the
+		// set are those of its newest eon, and while that one has no result nothing can be checked
+		restart := rapid.SampledFrom([]string{"", "", "older-eon-succeeded", "newest-eon-pending"}).Draw(rt, "restartState")
+		if restart != "" {
+			old := &eonSetup{KeyperConfigIndex: 5, Eon: 39, Activation: 100, Members: members, Threshold: th, Keys: f.Foreign}
+			if err := corekeyper.New(node.DB.Pool).InsertEon(ctx, corekeyper.InsertEonParams{Eon: old.Eon, Height: 0, ActivationBlockNumber: old.Activation, KeyperConfigIndex: 5}); err != nil {
+				rt.Fatalf("setup: %v", err)
+			}
+			if err := writeDKGResult(ctx, node.DB, old, 0, true); err != nil {
+				rt.Fatalf("setup: %v", err)
+			}
+		}
+		if restart != "newest-eon-pending" {
+			if err := writeDKGResult(ctx, node.DB, es, 0, true); err != nil {
+				rt.Fatalf("setup: %v", err)
+			}
 		}
 		ngroups := rapid.IntRange(1, 2).Draw(rt, "ngroups")
 		var groups [][][]byte
@@ -485,15 +502,15 @@ func TestC01_HandlerPipeline(t *testing.T) {
 				desc = append(desc, fmt.Sprintf("%s(k%d g%d)", kind, e.sender, e.group))
 			}
 			hist = append(hist, e)
-			history := fmt.Sprintf("n=%d t=%d groups=%d | %s", n, th, ngroups, strings.Join(desc, " "))
+			history := fmt.Sprintf("n=%d t=%d groups=%d eons=%q | %s", n, th, ngroups, restart, strings.Join(desc, " "))
 			before := node.DB.Srv.DumpData()
 			v := node.Validate(kprtopics.DecryptionKeyShares, e.data)
 			if v.Panicked != nil {
 				fatalf(rt, "validator-panic", "%v\nhistory: %s", v.Panicked, history)
 			}
-			if e.kind != "valid" {
+			if e.kind != "valid" || restart == "newest-eon-pending" {
 				if v.Accepted() {
-					fatalf(rt, "junk-share-accepted", "a %s share message was accepted\nhistory: %s", e.kind, history)
+					fatalf(rt, "junk-share-accepted", "a %s share message was accepted (eon state: %q)\nhistory: %s", e.kind, restart, history)
 				}
 				if node.DB.Srv.DumpData() != before {
 					fatalf(rt, "junk-share-changed-state", "rejected share message changed the database\nhistory: %s", history)
